@@ -146,7 +146,7 @@ Theorem fix_file_content :
     (forall k L, plain_layout L -> covers k L -> U (mkFile (layout_lines R k L) None) = Ok (canon k)) ->
     forall f k k', plain_file f -> other_ok k -> read_typed U f = Ok k ->
       fix_premarshal (file_exists e) k = Ok k' ->
-      fix_file e U R f = (COk, mkFile (marshal (parse_commented_fields f) (render_field R k')) None) /\
+      fix_file e U R f = (COk, mkFile (marshal (parse_commented_fields f) (trailing_kept f) (render_field R k')) None) /\
       read_typed U (snd (fix_file e U R f)) = Ok (fix_kustomization (canon k')).
 Proof.
   intros e U R Hc HUR f k k' Hp Ho Hr Hf. unfold fix_file, fix_cmd. rewrite Hr. cbn [bind]. rewrite Hf.
